@@ -407,6 +407,17 @@ class C04:
                     flines.append("proofverify %s %s %s %s %s %s %s" % (suite, tb(pk), tb(proof), tl(claimed), ti(D), tob(header), tob(ph)))
                     flabels.append("F1:degenerate-forgery|" + name); stats["forgeries"] += 1
             S.run(flines, expect="err", label=flabels)
+            # the same families under the IDENTITY public key, handed to proof_verify as a raw point (a key decoder would refuse
+            # it; the verifier's own checks must): e(Abar, O) e(O, -BP2) = 1 holds trivially, so only the Bbar check stands
+            rl = []; rlab = []
+            for trial in range(2):
+                L = rng.choice([1, 3]); U = rng.randrange(0, L + 1)
+                D = sorted(rng.sample(range(L), L - U)); claimed = [rb(rng, 4) for _ in D]
+                header = rand_header(rng); ph = rng.choice([None, rb(rng, 9)])
+                for name, proof in build_forgeries(suite, pyc.G2_ID, header, ph, claimed, D, U, rng, P):
+                    rl.append("proofverifyraw %s %s %s %s %s %s %s" % (suite, tb(pyc.G2_ID), tb(proof), tl(claimed), ti(D), tob(header), tob(ph)))
+                    rlab.append("F1:degenerate-forgery-identity-pk|" + name); stats["forgeries"] += 1
+            S.run(rl, expect="err", label=rlab)
         P.close()
         return stats
 
